@@ -101,7 +101,11 @@ def preset(pid, tier):
             props=[], invs=['I_C13'],
             tour=aol(Accts=S(['a1', 'a2']), Topics=S(['t1', 't2']) if not q else S(['t1']), ViewTopics=S(['t1', 't2']), RecVals=S(['v1']), MaxDeliver=4 if q else 5, MaxHeight=2),
             sims=[sim(aol(Accts=S(['a1', 'a2', 'a3', 'a4']), Topics=S(['t1', 't2', 't3', 't4']), ViewTopics=S(['t1', 't2', 't3', 't4']),
-                          MaxDeliver=50, MaxHeight=5, FailKeep=60), 60 if q else 1000, 60, views='full')])
+                          MaxDeliver=50, MaxHeight=5, FailKeep=60), 60 if q else 1000, 60, views='full'),
+                  # more topics under one owner, and more writers and records in one topic, than any default page size (150 bulk entries owned by a4);
+                  # a4 and the bulk topic are part of the alphabet, so the bulk entries are extended and paged through with every request shape
+                  sim(aol(Accts=S(['a1', 'a4']), Topics=S(['t1', 'f000']), ViewTopics=S(['t1', 'f000', 'f001']), RecVals=S(['v1']), MaxDeliver=12, MaxHeight=4, FailKeep=20),
+                      10 if q else 120, 25, genesis=dict(bulk=150), views='full')])
     if pid == 'C15':
         kinds = S(['aol.CreateTopic', 'aol.AddWriter', 'aol.AddRecord', 'did.Create', 'pnft.CreateDenom', 'pnft.Mint'])
         c = mk(Topics=S(['t1']), ViewTopics=S(['t1']), RecVals=S(['v1']), FeePayers=S(['none', 'a2']), Accts=S(['a1', 'a2']),
@@ -120,8 +124,10 @@ def preset(pid, tier):
         invs = {'C03': [], 'C04': ['I_C04'], 'C05': ['I_C05'], 'C11': ['I_C11']}[pid]
         # thorough bounds fitted to measured state counts: 6 documents x 5 deliveries = 89k states / 99M transitions / 9 min (C03, C11); the configurations with
         # Redeliver (C04) or restart/export actions over 3 heights (C05) keep 4 deliveries
-        docs = S(['A1', 'A2', 'C1', 'D2']) if q else S(['A1', 'A2', 'C1', 'D2', 'F12', 'U1'])
-        mcc = did(DocNames=docs, MaxDeliver=4 if (q or pid in ('C04', 'C05')) else 5, MaxHeight=3 if pid == 'C05' else 2,
+        # measured (16 workers, idle machine): 4 documents x 5 deliveries = 33k states / 30M transitions / 3 min; 6 x 4 = 14k / 11.6M / 1 min; 6 x 5 = 89k / 99M / 9 min
+        deep = pid in ('C03', 'C11')
+        docs = S(['A1', 'A2', 'C1', 'D2']) if (q or deep) else S(['A1', 'A2', 'C1', 'D2', 'F12', 'U1'])
+        mcc = did(DocNames=docs, MaxDeliver=4 if (q or not deep) else 5, MaxHeight=3 if pid == 'C05' else 2,
                   NextKinds=ALL_NEXT if pid == 'C05' else (S(['BeginBlock', 'Redeliver']) if pid == 'C04' else S(['BeginBlock'])))
         simc = did(Accts=S(['a1', 'a2', 'a3']), Dids=S(['d1', 'd2', 'dc']), ViewDids=S(['d1', 'd2', 'dc']),
                    DocNames=S(['A1', 'A2', 'B12', 'C1', 'D2', 'E1', 'F12', 'R1', 'U1', 'X1', 'N0', 'EMP']), ForeignVm=True, MaxDeliver=30, MaxHeight=6, NextKinds=ALL_NEXT_R, FailKeep=25)
@@ -145,7 +151,7 @@ def preset(pid, tier):
             bulk = did(Accts=S(['a1', 'a2']), Dids=S(['d1', 'd2']), ViewDids=S(['d1', 'd2']), DocNames=S(['A1', 'A2']), Keys=S(['k1', 'k2']), VmNames=S(['v1']),
                        MaxDeliver=10, MaxHeight=5, NextKinds=ALL_NEXT, FailKeep=25)
             sims.append(sim(bulk, 24 if q else 300, 30, genesis=dict(bulk=150)))
-        return dict(mc=mcc, props=props, invs=invs, tour=tourc, sims=sims, mc_timeout=2400)
+        return dict(mc=mcc, props=props, invs=invs, tour=tourc, sims=sims, mc_timeout=5400)
     if pid in ('C06', 'C12'):
         props = {'C06': ['P_C06'], 'C12': ['P_C12']}[pid]
         invs = {'C06': [], 'C12': ['I_C12']}[pid]
@@ -171,8 +177,12 @@ def preset(pid, tier):
                    NextKinds=ALL_NEXT, FailKeep=30)
         pair2 = pn(Accts=S(['a1', 'a2']), DenomIds=S(['n1', 'nc']), TokenIds=S(['i1', 'ic']), ViewDenoms=S(['n1', 'nc']), ViewTokens=S(['i1', 'ic']), MaxDeliver=30, MaxHeight=6,
                    NextKinds=ALL_NEXT, FailKeep=30)
+        # 150 bulk denoms and 150 bulk tokens in one denom, all owned by a4: listings beyond any default page size; a4 and the bulk denom are in the alphabet
+        bulkp = pn(Accts=S(['a1', 'a4']), DenomIds=S(['n1', 'f000']), TokenIds=S(['i1', 'g000']), ViewDenoms=S(['n1', 'f000', 'f001']), ViewTokens=S(['i1', 'g000', 'g001']),
+                   MaxDeliver=12, MaxHeight=4, NextKinds=ALL_NEXT, FailKeep=20)
         return dict(mc=mcc, props=props, invs=invs, tour=tourc,
-                    sims=[sim(simc, 150 if q else 3000, 60), sim(hostile, 40 if q else 600, 30), sim(pair1, 50 if q else 800, 40), sim(pair2, 30 if q else 500, 40)], mc_timeout=2400)
+                    sims=[sim(simc, 150 if q else 3000, 60), sim(hostile, 40 if q else 600, 30), sim(pair1, 50 if q else 800, 40), sim(pair2, 30 if q else 500, 40),
+                          sim(bulkp, 10 if q else 120, 25, genesis=dict(bulk=150))], mc_timeout=2400)
     if pid == 'C07':
         mcc = burn(MaxDeliver=3 if q else 5, MaxHeight=5, GovAmts=S([5]), NextKinds=S(['BeginBlock', 'GovSchedule']))      # thorough: 661k states / 9.2M transitions
         simc = burn(Accts=S(['a1', 'a2', 'a3']), Amts=S([0, 1, 7, 1000]), Kinds=S(['bank.Send', 'bank.SendAcct', 'bank.MultiSend', 'vesting.Create']),
@@ -197,10 +207,12 @@ def preset(pid, tier):
         # generator that believes '/' is fine in topic names (the genesis key separator); the judge keeps the published alphabet
         slash = aol(Accts=S(['a1', 'a2']), Topics=S(['t1', 'ts']), ViewTopics=S(['t1', 'ts']), MaxDeliver=12, MaxHeight=5, NextKinds=S(['BeginBlock', 'ExportImportBegin']),
                     FailKeep=30, Deviations=S(['slashtopics']))
-        bulk = did(Accts=S(['a1', 'a2']), Dids=S(['d1', 'd2']), ViewDids=S(['d1', 'd2']), DocNames=S(['A1', 'A2']), Keys=S(['k1', 'k2']), VmNames=S(['v1']),
-                   MaxDeliver=10, MaxHeight=5, NextKinds=S(['BeginBlock', 'ExportImportBegin']), FailKeep=25)
+        # every custom store holds 150 bulk entries (more than any default page size) besides what the behaviour adds
+        bulk = mk(Accts=S(['a1', 'a2']), Topics=S(['t1', 'f000']), ViewTopics=S(['t1', 'f000']), RecVals=S(['v1']), Dids=S(['d1', 'd2']), ViewDids=S(['d1', 'd2']), DocNames=S(['A1', 'A2']),
+                  Keys=S(['k1', 'k2']), VmNames=S(['v1']), DenomIds=S(['n1', 'f000']), TokenIds=S(['i1', 'g000']), DNames=S(['x']), ViewDenoms=S(['n1', 'f000']), ViewTokens=S(['i1', 'g000']),
+                  Kinds=allk, MaxDeliver=12, MaxHeight=5, NextKinds=S(['BeginBlock', 'ExportImportBegin']), FailKeep=25)
         return dict(mc=mcc, props=['P_C08'], invs=['I_Genesis'],
-                    sims=[sim(simc, 120 if q else 2500, 70), sim(slash, 30 if q else 400, 30), sim(bulk, 16 if q else 200, 30, genesis=dict(bulk=150))], mc_timeout=2400)
+                    sims=[sim(simc, 120 if q else 2500, 70), sim(slash, 30 if q else 400, 30), sim(bulk, 12 if q else 150, 30, genesis=dict(bulk=150))], mc_timeout=2400)
     raise KeyError(pid)
 
 
